@@ -716,6 +716,38 @@ func existenceProbedBeforeCreate(c *eng.Ctx, fnKey, pageRecv string) {
 		}
 		c.Check(!after, fmt.Sprintf("probe-before-acquire[%d]", i), pr.Instr, f, "the meta page file is probed before AcquirePage creates it", detail)
 	}
+	// "existing or new" is decided by the probe alone: no access to the meta page (loading the persisted positions, or writing the
+	// initial ones) is conditional on what the page contains - every bit pattern of the positions, all zero included, is a state
+	// an existing queue / group can be in
+	isMetaIO := func(p *eng.Prog, in ssa.Instruction) bool {
+		cl, ok := in.(*ssa.Call)
+		return ok && cl.Common().IsInvoke() && (cl.Common().Method.Name() == "ReadUint64" || cl.Common().Method.Name() == "PutUint64")
+	}
+	isRead := func(x ssa.Value) bool {
+		cl, ok := x.(*ssa.Call)
+		return ok && cl.Common().IsInvoke() && cl.Common().Method.Name() == "ReadUint64"
+	}
+	ios := p.Sites(f, isMetaIO)
+	if len(ios) < 2 {
+		c.Undecided("%s: expected meta page reads and writes, found %d", fnKey, len(ios))
+	}
+	for i, s := range ios {
+		bad := ""
+		top := eng.TopOf(f, s)
+		if top == nil {
+			top = s.Instr
+		}
+		for _, at := range []ssa.Instruction{s.Instr, top} {
+			conds, _ := eng.GuardingConds(at.Parent(), at)
+			for _, cd := range conds {
+				if eng.DependsOn(cd, isRead) {
+					bad = p.Desc(cd)
+				}
+			}
+		}
+		c.Check(bad == "", fmt.Sprintf("meta-access-not-conditional-on-content[%d]", i), s.Instr, f,
+			"whether the persisted positions are loaded or initial ones are written is decided by the existence probe, never by the content of the meta page", "conditional on "+bad)
+	}
 }
 
 func keysOfBool(m map[string]bool) string {
